@@ -455,7 +455,7 @@ def _expand(mod, stmts, caller, depth, log):
                 call, kind = s.value, "expr"
             elif isinstance(s, ast.Assign) and len(s.targets) == 1 and isinstance(s.targets[0], ast.Name) and isinstance(s.value, ast.Call):
                 call, kind, target = s.value, "assign", s.targets[0].id
-            elif isinstance(s, ast.Assign) and len(s.targets) == 1 and isinstance(s.targets[0], (ast.Attribute, ast.Subscript)) and isinstance(s.value, ast.Call):
+            elif isinstance(s, ast.Assign) and len(s.targets) == 1 and isinstance(s.targets[0], (ast.Attribute, ast.Subscript, ast.Tuple)) and isinstance(s.value, ast.Call):
                 call, kind = s.value, "store"
             elif isinstance(s, ast.Return) and isinstance(s.value, ast.Call):
                 call, kind = s.value, "return"
@@ -1247,6 +1247,36 @@ def _desugar_union_star(stmts):
     return out
 
 
+class _DictCallToDisplay(ast.NodeTransformer):
+    """dict(a=x, b=y)  ->  {'a': x, 'b': y}"""
+
+    def visit_Call(self, c):
+        self.generic_visit(c)
+        if isinstance(c.func, ast.Name) and c.func.id == "dict" and not c.args and c.keywords and all(k.arg is not None for k in c.keywords):
+            return ast.copy_location(ast.Dict(keys=[ast.Constant(value=k.arg) for k in c.keywords], values=[k.value for k in c.keywords]), c)
+        return c
+
+
+def _split_tuple_assign(stmts):
+    """a, b = x, y  ->  a = x; b = y   when no target name is read on the right-hand side (so the order does not matter)"""
+    out = []
+    for s in stmts:
+        for fld in ("body", "orelse", "finalbody"):
+            if isinstance(getattr(s, fld, None), list) and not isinstance(s, (ast.FunctionDef, ast.ClassDef)):
+                setattr(s, fld, _split_tuple_assign(getattr(s, fld)))
+        for hnd in getattr(s, "handlers", []) or []:
+            hnd.body = _split_tuple_assign(hnd.body)
+        if isinstance(s, ast.Assign) and len(s.targets) == 1 and isinstance(s.targets[0], ast.Tuple) and isinstance(s.value, ast.Tuple) \
+                and len(s.targets[0].elts) == len(s.value.elts) and all(isinstance(t, ast.Name) for t in s.targets[0].elts):
+            tn = {t.id for t in s.targets[0].elts}
+            if not any(isinstance(n, ast.Name) and n.id in tn for n in ast.walk(s.value)) and len(tn) == len(s.targets[0].elts):
+                for t, v in zip(s.targets[0].elts, s.value.elts):
+                    out.append(ast.copy_location(ast.Assign(targets=[ast.Name(id=t.id, ctx=ast.Store())], value=v), s))
+                continue
+        out.append(s)
+    return out
+
+
 class _FormatToFString(ast.NodeTransformer):
     """'..{}..{:X}..'.format(a, b)  ->  f'..{a}..{b:X}..'   (positional fields only; anything else is left alone)"""
 
@@ -1402,11 +1432,13 @@ def canonical_function(mod, fn, depth=3):
             _d = _st if isinstance(_n.ctx, (ast.Store, ast.Del)) else _ld
             _d[_n.id] = _d.get(_n.id, 0) + 1
     new.body = _propagate_single_use(new.body, _ld, _st)
+    new.body = _split_tuple_assign(new.body)
     new = _QuantifierNorm().visit(new)
     new = _propagate_pure_locals(new)
     new.body = _split_ifexp_calls(new.body)
     new.body = _merge_if_calls(new.body)
     new = _FormatToFString().visit(new)
+    new = _DictCallToDisplay().visit(new)
     new = _propagate_option_flags(new)
     local_names = _assigned_names(new)
     new = _ConstProp(_module_constants(mod), local_names).visit(new)
